@@ -8,3 +8,5 @@ pub use crate::geom3::mesh::verif_edges as edges;
 pub use crate::geom3::mesh::verif_box_geom as box_geom;
 pub use crate::geom2::verif_circle_fit_eval as circle_fit_eval;
 pub use crate::geom2::verif_intersection_line_circle as intersection_line_circle;
+pub use crate::geom2::align2::verif_points_to_curve_eval as points_to_curve_eval;
+pub use crate::geom3::align3::verif_points_to_mesh_eval as points_to_mesh_eval;
